@@ -70,3 +70,25 @@ Theorem C02_compiled_program_rereads : forall source ss ps, stmts_wf ss -> compi
            (map (fun s => (sq_name s, den_select source sc vals s)) (rev rctes), den_select source sc vals q).
 Proof. exact compiled_program_rereads. Qed.
 Print Assumptions C02_compiled_program_rereads.
+
+(** ** from the source text *)
+From PQL Require Import Proofs.ParsedWf.
+
+(** End to end on the model: for every source that parses (no pass-through function called NOT
+    or CASE -- finding F1) and compiles without parameters, the output's tokens are read by the
+    reference reader as the subqueries of the query (C02_pipeline / C03_joins give their meaning). *)
+Theorem C02_compile_rereads : forall s ss ps, parse s = ParseOk ss -> Forall names_ok_stmt ss -> compile [] s = COk ps ->
+  exists sc t subs q rctes,
+    stmt_loop [] None ss = Ok (sc, Some t) /\ split_queries sc [] t = Ok subs /\ rev subs = q :: rctes /\
+    let '(names, vals) := let_vals [] (fun _ => XWord []) false ss in
+    exists ts, ptoks ps = Some ts /\
+      Conv (fun fx => read_stmt fx ts)
+           (map (fun sq => (sq_name sq, den_select s sc vals sq)) (rev rctes), den_select s sc vals q).
+Proof. exact compile_rereads. Qed.
+Print Assumptions C02_compile_rereads.
+
+(** the premises are satisfiable: a program with lets, a join, grouping, sorting and a limit *)
+Example C02_compile_rereads_nonvacuous :
+  exists ss ps, parse (L "let n = 3; T | where a == -b + 1 and c in (1, n) | join kind=leftouter (U | summarize m = max(x) by k) on k | sort by m desc | take n") = ParseOk ss
+             /\ compile [] (L "let n = 3; T | where a == -b + 1 and c in (1, n) | join kind=leftouter (U | summarize m = max(x) by k) on k | sort by m desc | take n") = COk ps.
+Proof. eexists _, _. split; vm_compute; reflexivity. Qed.
